@@ -5,6 +5,7 @@ package main
 
 import (
 	"fmt"
+	"runtime/debug"
 	"os"
 
 	"verif/internal/core"
@@ -68,6 +69,12 @@ func main() {
 		reqsim.ChildMain(os.Args[2], seed)
 		return
 	}
+	if os.Args[1] == "__reqload" && len(os.Args) == 4 {
+		var seed int64
+		fmt.Sscan(os.Args[2], &seed)
+		reqsim.LoadMain(seed, os.Args[3])
+		return
+	}
 	if os.Args[1] == "__reqbatch" && len(os.Args) == 5 {
 		var seed int64
 		fmt.Sscan(os.Args[4], &seed)
@@ -105,7 +112,7 @@ func main() {
 	func() {
 		defer func() {
 			if v := recover(); v != nil {
-				c.Inconclusive("engine panic: %v", v)
+				c.Inconclusive("engine panic: %v\n%s", v, debug.Stack())
 			}
 		}()
 		run(c)
